@@ -11,6 +11,12 @@ THEOREMS = [
     "install_refines",
     "install_empty",
     "nth_eq_scan",
+    "by_var_eq_scan",
+    "nav_round_trip",
+    "nav_round_trip_back",
+    "sub_cursor_correct",
+    "varlist_unfilled",
+    "mutate_p_sub_refines",
     "getters_eq_scan",
     "getters_after_history",
     "interface_algorithms_agree",
@@ -33,19 +39,28 @@ RULE = ("one PRNG (SplitMix64 from the seed) generates HISTORIES of mutations ap
         "(insert into an empty slot, removal, same-vars replacement = fast path with same or different bond and in/out, "
         "different-vars replacement incl. permutations of the same variables, no-ops), mutate_ps sweeps over arbitrary sub-ranges and "
         "the full range mixing keep/remove/set (with array growth when pend exceeds the cutoff), mutate_ops sweeps (pend inclusive), "
-        "set_cutoff growth and no-op shrink requests, sub-variable sweeps mutate_subsection / mutate_subsection_ops with a Varlist cursor "
-        "built by fill_args_at_p_with_hint (hints `_` or any position holding an op on that variable), clear-everything-then-refill "
-        "episodes and single-op insert/remove histories. Ops have 1..3 pairwise distinct variables (3 spills the SmallVec), diagonal or "
-        "offdiagonal, random bond/in/out/constant flag. Generation stays inside the valid domain (what the Rust debug_asserts / unwraps "
-        "demand); six excluded points (self-loop op, zero-variable op, Varlist cursor without hint, removal inside mutate_ops, "
-        "mutate_ps starting at the array length, fill_args_at_p_with_hint beyond the array length) are run once as probes and documented as STAT lines. After EVERY mutation the harness "
+        "set_cutoff growth and no-op shrink requests, sub-variable sweeps mutate_subsection / mutate_subsection_ops whose cursor is "
+        "built in one of three ways (1/3 each): Varlist + fill_args_at_p_with_hint (hints `_` or any position holding an op on that "
+        "variable), `N` = get_empty_args + plain fill_args_at_p, `A` = additionally through SubvarAccess::Args; for N/A the variable "
+        "list is `*` (SubvarAccess::All) in 1/4 of the cases; variable lists are random subsets in random order (non-leading ones "
+        "like [3], [2,3], [1,3] included); ~15% of the histories (nvars >= 3) never put an op on variable 0 (half of them also not on 1) "
+        "so that only high variables carry ops while Varlists name the high ones; clear-everything-then-refill episodes and single-op "
+        "insert/remove histories. Ops have 1..3 pairwise distinct variables (3 spills the SmallVec), diagonal or offdiagonal, random "
+        "bond/in/out/constant flag. Generation stays inside the valid domain (what the Rust debug_asserts / unwraps demand; for N/A "
+        "Varlist fills: some listed variable has an op or nothing below pstart is occupied); six excluded points (self-loop op, "
+        "zero-variable op, Varlist cursor without hint and without listed ops, removal inside mutate_ops, mutate_ps starting at the array "
+        "length, hint fill beyond the array length) are run once as probes and documented as STAT lines. After EVERY mutation the harness "
         "prints the contents, the serde snapshot of all private pointers (n, p_ends, var_ends, bond_counters, per node previous/next and "
         "per-variable links), every public getter (get_n, first/last p, get_count(0..8), per-variable first/last/has, node links through "
-        "the LoopUpdater getters, get_nth_p(0..n)) and fill_args_at_p cursors at 0..5 query positions; the model must reproduce all 12 "
-        "tokens. Oracle (real code only): every pointer/getter/cursor compared with a direct scan of get_pth(0..cutoff) and the contents "
-        "compared with a naive slot array kept by the harness; a failing history is delta-debugged to a minimal mutation sequence. "
-        "Non-trivial = the container holds at least one op after the mutation; distinct = distinct (history, step, contents-before hash, "
-        "mutation, query positions).")
+        "the LoopUpdater rel-var getters, get_nth_p(0..n)), fill_args_at_p cursors at 0..5 query positions, the by-variable accessors "
+        "get_previous_p_for_var / get_next_p_for_var for every (occupied slot, variable) incl. variables not on the op (Err) and "
+        "iterate_ops / iterate_ps over the range spanned by the query positions; the model must reproduce all 14 tokens. Oracle (real "
+        "code only): every pointer/getter/cursor compared with a direct scan of get_pth(0..cutoff); by-variable accessors vs the scan, vs "
+        "the rel-var accessors and forward/backward consistent; iterate_ops == try_iterate_ops == occupied slots in [a,b], iterate_ps == "
+        "try_iterate_ps == slots a..min(b,cutoff); the cursor built by an N/A fill is compared with the scan BEFORE the mutation runs; the "
+        "contents are compared with a naive slot array kept by the harness; a panic inside the domain is a failure; a failing history is "
+        "delta-debugged to a minimal mutation sequence. Non-trivial = the container holds at least one op after the mutation; distinct = "
+        "distinct (history, step, contents-before hash, mutation, query positions).")
 
 
 def main(ck):
